@@ -44,7 +44,7 @@ package main
 
 // --------------------------------------------------------------------- C01
 
-//@ func GetBlock property C01
+//@ func GetBlock property C01,C02
 //@   ghost tried int = 0
 //@   ghost nvols int = 0
 //@   calls volmgr.AllReadable#1: set nvols = len($r)
